@@ -200,7 +200,7 @@ def ctrl_perturbed_spec(ctx):
     cl = K.check_function(I, "gmm.log_weighted_likelihood", lambda: ([G.mk_data(), G.mk_gmm(I)], {}),
                           wrong, G.facts(), "C01.control.lwl-doubled")
     bad = [c for c in cl if c.status == "refuted"]
-    out = [Clause("C01.control.lwl-doubled", "refuted" if bad else "discharged", "npsym", "doubled specification")]
+    out = [Clause("C01.control.lwl-doubled", "refuted" if bad else ("discharged" if cl and all(c.status == "discharged" for c in cl) else "undecided"), "npsym", "doubled specification")]
     # precondition satisfiable: the facts are consistent (a canary False goal must be refuted)
     from vt import smt
     st, info = smt.prove(T.FALSE, G.facts(), [T.cmp_cond("<", ZERO, T.sym("thr"))])
